@@ -155,6 +155,7 @@ def plan(prop, tier):
         P += S("release", "hist", n=4000 if q else 30000, shards=6, profile="general")
         P += S("release", "hist", n=3000 if q else 20000, shards=2, profile="partition")
         P += S("release", "chains", shards=2, stride=40 if q else 6)
+        P += S("release", "sets", n=3000 if q else 20000, shards=2)
     elif prop == "C04":
         P += S("release", "sentinels")
         P += S("release", "sweep", shards=8 if q else 14, maxlen=900 if q else 4000, dense=260 if q else 1100, timeout=3000)
